@@ -21,6 +21,18 @@ Section Sigma.
           div N (add N P (tens_term (fun _ y => mul N y y) edges)) A).
 End Sigma.
 
+(* frames.py:275-290 : the principal stresses are the eigenvalues of [[xx, xy], [xy, yy]] (numpy's eig is an oracle); in closed form
+   the mean of the diagonal plus / minus the radius of Mohr's circle *)
+Section Principal.
+  Context {T : Type} (N : NumOps T).
+  Definition principal (s : T * T * T) : T * T :=
+    let '(a, b, c) := s in
+    let m := div N (add N a c) (two N) in
+    let h := div N (sub N a c) (two N) in
+    let r := nsqrt N (add N (mul N h h) (mul N b b)) in
+    (add N m r, sub N m r).
+End Principal.
+
 (* the key f"{row}{column}" as a list of decimal digits (grid sizes below 100) *)
 Definition digits (n : nat) : list nat := if Nat.ltb n 10 then [n] else [Nat.div n 10; Nat.modulo n 10].
 Definition key (row col : nat) : list nat := digits row ++ digits col.
